@@ -10,6 +10,7 @@ import (
 	"encoding/json"
 	"errors"
 	"fmt"
+	"google.golang.org/grpc/credentials"
 	"io"
 	"net"
 	"net/rpc"
@@ -340,6 +341,22 @@ func (im *impl) handle(c Cmd) (r Reply, err error) {
 				r.List = append(r.List, strconv.Itoa(int(id)))
 			}
 		}
+	case "broker_accept_rogue":
+		// Accept id, but serve the listener with credentials of our own choosing (S: samename =
+		// a fresh certificate carrying go-plugin's subject and SAN, plaintext = none) instead of the
+		// ones AcceptAndServe would use: what a dialler sees when something else answers at the
+		// announced address.
+		if im.grpcb == nil {
+			return r, errors.New("no gRPC broker")
+		}
+		ln, err := im.grpcb.Accept(c.ID)
+		if err != nil {
+			return r, err
+		}
+		srv := rogueServer(c.S, &impl{tag: Tag{Pid: os.Getpid(), Broker: c.ID, Side: im.tag.Side + "-rogue", Proto: "grpc"}})
+		brokered.Store(c.ID, srv.Stop)
+		go srv.Serve(ln)
+		return r, nil
 	case "broker_accept":
 		// Accept id in the background and serve a tag service on it. The reply
 		// returns at once; the listener is (for the non-multiplexed gRPC broker)
@@ -424,6 +441,26 @@ func (im *impl) brokerDial(c Cmd) (Reply, error) {
 		return brokeredExchange(h, c)
 	}
 	return Reply{}, errors.New("no broker")
+}
+
+// rogueServer: a gRPC server with the harness service that presents a certificate of the harness's
+// own making (same subject and SAN as go-plugin's one-time certificates, other key) or no TLS at all.
+func rogueServer(kind string, im *impl) *grpc.Server {
+	var opts []grpc.ServerOption
+	if kind != "plaintext" {
+		certPEM, keyPEM, err := genCertPEM("localhost")
+		if err != nil {
+			panic(err)
+		}
+		pair, err := tls.X509KeyPair(certPEM, keyPEM)
+		if err != nil {
+			panic(err)
+		}
+		opts = append(opts, grpc.Creds(credentials.NewTLS(&tls.Config{Certificates: []tls.Certificate{pair}, ClientAuth: tls.RequestClientCert})))
+	}
+	s := grpc.NewServer(opts...)
+	registerHarness(s, "verif.Brokered", im)
+	return s
 }
 
 // brokeredExchange: who answers on the brokered connection; with S == "blob" also a 5 MiB response.
